@@ -39,11 +39,12 @@ def cmd_import(sid, prop, wt):
     rc1, out1 = sh("/venv/bin/python %s" % demo[0], cwd=wt, env=env)
     ran["demo_with_change_rc"] = rc1
     ran["demo_with_change_tail"] = out1.strip().splitlines()[-3:]
-    sh("git stash -- src", cwd=wt)
+    pf = os.path.join(d, "patch.diff")
+    sh("git apply -R %s" % pf, cwd=wt)
     try:
         rc0, out0 = sh("/venv/bin/python %s" % demo[0], cwd=wt, env=env)
     finally:
-        sh("git stash pop", cwd=wt)
+        sh("git apply %s" % pf, cwd=wt)
     ran["demo_without_change_rc"] = rc0
     meta = {"id": sid, "property": prop, "demo": demo[0], "confirmed": bool(tests_ok and rc1 != 0 and rc0 == 0),
             "what_i_ran": ran, "needs": "", "base_commit": sh("git rev-parse --short HEAD", cwd=wt)[1].strip(),
